@@ -265,9 +265,12 @@ class Shape:
 
 class ArrState:
   """immutable record; in-place writes replace the record in path.store"""
-  __slots__ = ('term', 'shape', 'kind', 'owner', 'base', 'version', 'tag', 'vf')
+  __slots__ = ('term', 'shape', 'kind', 'owner', 'base', 'version', 'tag', 'vf', 'tt')
 
-  def __init__(self, term, shape, kind='f', owner=('fresh',), base=None, version=0, tag=None, vf=None):
+  def __init__(self, term, shape, kind='f', owner=('fresh',), base=None, version=0, tag=None, vf=None, tt=None):
+    # tt ("translation type", ghost, property C19): how the array changes when every training point is translated by a constant
+    # vector c:  'pos' = its points move by (a linear image of) c,  'inv' = unchanged,  'bad' = neither can be shown,  None = not classified yet
+    self.tt = tt
     # vf ("value frame", ghost): for an array of integer INDICES, the length of the axis its values index
     # (a z3 Int term); arrays of indices into different axes must not be mixed up (C07: "indices refer to the caller's array")
     self.term, self.shape, self.kind, self.owner, self.base, self.version, self.tag, self.vf = \
